@@ -120,3 +120,69 @@ package quotaresource
 //@   ensures[last]  gLastAllowed == result0
 //@   ensures[only-if-counted] seq: result0 ==> old(in(groupKey(fw, APIStream), fw.quotaGroups)) && old(fw.quotaGroups[groupKey(fw, APIStream)].gCounted[APIStream.GetID()])
 //@   ensures[world] worldOK()
+
+// ---------------------------------------------------------------- the concurrency strategy (C02)
+//@ pure contextmanager.Get
+//@ pure ContextManager.GetClock
+//@ pure ClusterLivenessI.GetInstanceID
+//@ pure ClusterLivenessI.IsPartOfCluster
+
+// Operations of a parent strategy reached through the interface (trusted): they run on the parent's own objects and do not
+// touch this strategy's bookkeeping; in this tree every Inc/Dec of a strategy returns nil (closed world, by induction up the hierarchy).
+//@ iface QuotaResourceI.Inc
+//@   modifies now
+//@   ensures result == nil
+//@ iface QuotaResourceI.Dec
+//@   modifies now
+//@   ensures result == nil
+//@ iface QuotaResourceI.Allowed
+//@   modifies now
+
+//@ ghost func csMS(cs *concurrentStrategy) *lunar_context.memoryState[int64] = cs.sharedContext.(*lunar_context.memoryState[int64])
+//@ ghost func csSet(cs *concurrentStrategy) []string = setOf(csMS(cs), cs.concurrentSetKey)
+//@ ghost func csCard(cs *concurrentStrategy) int = cardOf(csMS(cs), cs.concurrentSetKey)
+//@ ghost func csOK(cs *concurrentStrategy) bool = cs != nil && typeis(cs.sharedContext, *lunar_context.memoryState[int64]) && msValid(csMS(cs)) && csMS(cs).gIsSet[cs.concurrentSetKey] && csMS(cs).gMax[cs.concurrentSetKey] == cs.maxRequestCount && cs.maxRequestCount >= 0 && cs.concurrentSetKey != ""
+
+//@ monitor concurrentStrategy.mutex
+//@   self cs
+//@   protects allowedReq
+//@   invariant[map]     cs.allowedReq != nil
+//@   invariant[entries] forall(r, string, in(r, cs.allowedReq) ==> cs.allowedReq[r] != nil && allocated(cs.allowedReq[r]))
+//@   rely[map-stays]    cs.allowedReq == old(cs.allowedReq)
+
+//@ func (*concurrentStrategy).Inc
+//@   prop C02
+//@   observation safe[nil-deref:cs.allowedReq[reqID].member]@conc :: Inc re-acquires the lock after setReqStatus and dereferences cs.allowedReq[reqID]; if the GC goroutine (validateMemberIntegrity: member expired or instance not in cluster) deletes that entry in between, this is a nil-pointer dereference. A crash is not part of C02's statement (slots and their bound); recorded as an observation (C05/C18 territory).
+//@   requires csOK(cs) && cs.allowedReq != nil
+//@   requires[entries] forall(r, string, in(r, cs.allowedReq) ==> cs.allowedReq[r] != nil && allocated(cs.allowedReq[r]))
+//@   allocates allowedReqStatus
+//@   modifies mapof(cs.allowedReq), allof(allowedReqStatus.member), smapof(cmOf(csMS(cs)).ctx), now
+//@   ensures[ok]      result == nil
+//@   ensures[known-request-untouched] seq: old(in(APIStream.GetID(), cs.allowedReq)) && old(cs.allowedReq[APIStream.GetID()].status) != reqNotFound ==> csCard(cs) == old(csCard(cs)) && cs.allowedReq[APIStream.GetID()] == old(cs.allowedReq[APIStream.GetID()])
+//@   ensures[slot-taken-memo] seq: !old(in(APIStream.GetID(), cs.allowedReq)) && old(csCard(cs)) < cs.maxRequestCount ==> in(APIStream.GetID(), cs.allowedReq) && cs.allowedReq[APIStream.GetID()].status == reqAllowed
+//@   ensures[slot-taken-member] seq: !old(in(APIStream.GetID(), cs.allowedReq)) && old(csCard(cs)) < cs.maxRequestCount ==> cs.allowedReq[APIStream.GetID()].member == memberKey
+//@   ensures[slot-taken-card] seq: !old(in(APIStream.GetID(), cs.allowedReq)) && old(csCard(cs)) < cs.maxRequestCount ==> csCard(cs) == old(csCard(cs)) + 1
+//@   ensures[slot-taken-last] seq: !old(in(APIStream.GetID(), cs.allowedReq)) && old(csCard(cs)) < cs.maxRequestCount ==> csSet(cs)[old(csCard(cs))] == memberKey
+//@   ensures[full-refused] seq: !old(in(APIStream.GetID(), cs.allowedReq)) && old(csCard(cs)) >= cs.maxRequestCount ==> !in(APIStream.GetID(), cs.allowedReq) && csCard(cs) == old(csCard(cs))
+//@   ensures[bound] seq: csCard(cs) <= cs.maxRequestCount || csCard(cs) == old(csCard(cs))
+//@   ensures[others-untouched] seq: forall(r, string, r != APIStream.GetID() ==> (in(r, cs.allowedReq) <==> old(in(r, cs.allowedReq))) && cs.allowedReq[r] == old(cs.allowedReq[r]))
+
+//@ func (*concurrentStrategy).Dec
+//@   prop C02
+//@   requires csOK(cs) && cs.allowedReq != nil
+//@   requires[entries] forall(r, string, in(r, cs.allowedReq) ==> cs.allowedReq[r] != nil && allocated(cs.allowedReq[r]))
+//@   modifies mapof(cs.allowedReq), smapof(cmOf(csMS(cs)).ctx), now
+//@   ensures[ok]        result == nil
+//@   ensures[forgotten] seq: !in(APIStream.GetID(), cs.allowedReq)
+//@   ensures[released]  seq: old(in(APIStream.GetID(), cs.allowedReq)) && old(cs.allowedReq[APIStream.GetID()].status) == reqAllowed && exists(j, 0, old(csCard(cs)), old(csSet(cs))[j] == old(cs.allowedReq[APIStream.GetID()].member)) ==> csCard(cs) == old(csCard(cs)) - 1
+//@   ensures[once]      seq: !old(in(APIStream.GetID(), cs.allowedReq)) ==> csCard(cs) == old(csCard(cs)) && forall(j, 0, csCard(cs), csSet(cs)[j] == old(csSet(cs))[j])
+//@   ensures[never-adds] seq: csCard(cs) <= old(csCard(cs))
+//@   ensures[others-untouched] seq: forall(r, string, r != APIStream.GetID() ==> (in(r, cs.allowedReq) <==> old(in(r, cs.allowedReq))) && cs.allowedReq[r] == old(cs.allowedReq[r]))
+
+//@ func (*concurrentStrategy).validateMemberIntegrity
+//@   prop C02
+//@   requires csOK(cs) && cs.allowedReq != nil && member != nil
+//@   modifies mapof(cs.allowedReq), smapof(cmOf(csMS(cs)).ctx), now
+//@   ensures[expired-released] seq: member.ExpiryTime <= 0 ==> !result && !in(member.ReqID, cs.allowedReq) && (exists(j, 0, old(csCard(cs)), old(csSet(cs))[j] == member.Key) ==> csCard(cs) == old(csCard(cs)) - 1)
+//@   ensures[valid-kept] seq: result ==> csCard(cs) == old(csCard(cs)) && (in(member.ReqID, cs.allowedReq) <==> old(in(member.ReqID, cs.allowedReq)))
+//@   ensures[never-adds] seq: csCard(cs) <= old(csCard(cs))
